@@ -84,15 +84,16 @@ def check_rk_retry(F, run):
     dp = "RungeKuttaSolver::step"
     redos = [n for n in walk(b["body"], into_closures=False) if n.get("k") == "Call" and "IVPStatus::Redo" in pp(n) and (callee(n) or "").endswith("Err")]
     run.floor("R5.2", dp, "Redo returns", len(redos), 1, F.loc(b))
-    top = list(b["body"]["stmts"])
+    top = list(b["body"]["stmts"]) + ([b["body"]["expr"]] if b["body"].get("expr") is not None else [])
     for r in redos:
-        writes = [s for s in top if must_write_dt(s) and cfg.precedes(b["body"], s, r)]
         mins = []
         for s in top:
-            e = s.get("e", s)
+            e = s.get("e", s) if s.get("k") in ("ExprS", "Semi") else s
             if e.get("k") == "If" and any(l[2] and lt_cond(F, b, l[1], "dt", "dt_min") for l in cfg.conj_lits(cfg.lit(e["c"]))) \
-                    and "MinimumTimeDeltaExceeded" in pp(e["t"]) and cfg.precedes(b["body"], s, r):
+                    and "MinimumTimeDeltaExceeded" in pp(e["t"]) and (cfg.precedes(b["body"], s, r) or ("e" in e and any(x is r for x in walk(e["e"])))):
+                # the test comes before the Redo, or the Redo is what the test's own else branch returns (`if dt < dt_min { Err(Failure) } else if … { … } else { Err(Redo) }`)
                 mins.append(s)
+        writes = [s for s in top if must_write_dt(s) and (cfg.precedes(b["body"], s, r) or (mins and top.index(s) < top.index(mins[-1])))]
         okorder = bool(writes and mins) and top.index(writes[-1]) < top.index(mins[-1])
         run.check(okorder, "R5.2", dp, "redo-after-dt-update-and-min-test", F.loc(b, r),
                   "Redo is returned without every path first updating dt and then passing the `dt < dt_min ⇒ Failure` test: the iterator could retry the same step forever",
